@@ -18,7 +18,7 @@ LEVEL = "exploration"
 RULE = (
     "one case per (history, prefix, probe): histories of 1-12 assemblies in one process (valid programs, programs failing in the scanner, "
     "parser, expansion, label pass and emission, .map programs, other ROM types, programs whose data ends with the last byte of a mapped region, programs that abandon an expression half-way, programs re-using the probes' macro/symbol/label/table/"
-    "file names with other contents, file-API and in-process CLI runs) followed after every prefix by 47 probes (LoROM, HiROM, low2, .map, "
+    "file names with other contents, file-API and in-process CLI runs) followed after every prefix by 49 probes (LoROM, HiROM, low2, .map, "
     "macros, tables, .incbin, -D, failing probes); each probe result (blocks, labels, root symbols, error kind and text with object "
     "addresses normalised) is compared with the same probe assembled alone in a fresh interpreter, and probes are repeated; batches of probes are also assembled on Program objects that were all constructed before the first of them ran; distinct by "
     "hash of (history prefix, probe); non-trivial = every comparison against a fresh-process baseline"
@@ -75,6 +75,9 @@ def fixed_probes() -> list[dict]:
         {"name": "hirom_wram_first", "src": "*=0x7E2000\n.db 1, 2\nwram_l:\n.dl wram_l\n*=0x408000\n.db 3\n", "rom": "high"},
         {"name": "lorom_wram_first", "src": "*=0x7F0010\n.db 1, 2\nwram_l:\n.dl wram_l\n", "rom": "low"},
         {"name": "fail_hirom_branch_in_wram", "src": "*=0x7E2000\nloop_q:\nnop\nbra loop_q\n", "rom": "high"},
+        # two blocks closed by adjacent braces (reads as the end of a splice): whatever this source gets, it gets it always
+        {"name": "adjacent_closing_braces", "src": "*=0x008000\n.scope a_q {\n.scope b_q {\nnop\n}}\n.db 1\n", "rom": None},
+        {"name": "adjacent_closing_braces_after_splice", "src": "*=0x008000\n.macro wq(pb) {\n{{pb}}\n}\nwq({\nnop\n})\n{\n{\nrts\n}}\n", "rom": None},
         {"name": "fail_unknown_directive_incsrc", "src": "*=0x008000\n.db 1\n.incsrc 'shared_inc.s'\n", "rom": None},
         {"name": "fail_unknown_directive_inclue", "src": "*=0x008000\n.inclue 'shared_inc.s'\n.db 1\n", "rom": None},
         {"name": "fail_unknown_directive_tabel", "src": "*=0x008000\n.tabel 'shared.tbl'\n.dbb 1\n", "rom": None},
@@ -276,7 +279,7 @@ def history_action(rng: random.Random) -> dict:
         # (without a *= line no later pass evaluates anything after the abandoned expression)
         return {"what": "abandoned_expression", "src": (f"*={addr:#x}\n" if rng.random() < 0.4 else "") + "kq := 5\n" + frag, "rom": None}
     if c < 0.69:
-        bad = rng.choice(["lda.q 1\n", "!!!\n", ".ascii 'abc\n", "{\n", "/* open\n", "lda.w nowhere_q\n", ".dw nowhere_q\n", "nomac_q(1)\n", "nop #1\n",
+        bad = rng.choice(["{{body_q}\n", "{{\n", "{{body_q\n}}\n", ".macro uq(pb) {\n{{pb}\n}\n", "lda.q 1\n", "!!!\n", ".ascii 'abc\n", "{\n", "/* open\n", "lda.w nowhere_q\n", ".dw nowhere_q\n", "nomac_q(1)\n", "nop #1\n",
                           "bra far_q\n.ascii '" + "x" * 200 + "'\nfar_q:\n", "*=0x708000\n.db 1\n", ".include 'nofile_q.s'\n", ".text 'no table'\n", "shared_m()\n"])
         return {"what": "failing", "src": f"*={addr:#x}\n" + COMMON.format(k=k, mk=mk) + "start:\n.db 1\n" + bad + ".db 2\n", "rom": rom if rom != "low2" else "low"}
     if c < 0.79:
